@@ -1,17 +1,22 @@
-"""Diff of two more solvers on SMT-LIB dumps of engine-S queries (run in the thorough tier on a sample)."""
+"""Diff of two more solvers (z3 4.8.12 binary, cvc5 1.0 binary) on SMT-LIB dumps of the queries the checks discharge
+with the z3 Python API (thorough tier, sampled by vlib/smtdump.py).  A definite opposite answer is a harness error."""
 from __future__ import annotations
 
+import concurrent.futures
+import glob
 import os
+import shutil
 import subprocess
-import tempfile
-from typing import Dict, List, Tuple
+from typing import Any, Dict, List, Tuple
 
 
-def run_binary(cmd: List[str], path: str, timeout: int = 60) -> str:
+def run_binary(cmd: List[str], path: str, timeout: int = 90) -> str:
     try:
         r = subprocess.run(cmd + [path], capture_output=True, text=True, timeout=timeout)
     except subprocess.TimeoutExpired:
         return "timeout"
+    except FileNotFoundError:
+        return "missing"
     out = (r.stdout + r.stderr).strip().splitlines()
     if any("(error" in l for l in out):
         return "error"
@@ -21,24 +26,53 @@ def run_binary(cmd: List[str], path: str, timeout: int = 60) -> str:
     return "error"
 
 
-def cross_check(dumps: List[Tuple[str, str]]) -> Dict[str, object]:
-    """dumps: (smt2 text, answer of the z3 python API).  Returns counts and the disagreements."""
-    res = {"queries": 0, "z3_4_8_12": {"agree": 0, "other": 0}, "cvc5": {"agree": 0, "other": 0}, "disagreements": []}
-    d = tempfile.mkdtemp(prefix="verif_smt_")
-    try:
-        for i, (text, expected) in enumerate(dumps):
-            path = os.path.join(d, f"q{i}.smt2")
-            with open(path, "w") as f:
-                f.write("(set-logic ALL)\n" + text + "\n(check-sat)\n" if "(check-sat)" not in text else text)
-            res["queries"] += 1  # type: ignore[operator]
-            for name, cmd in (("z3_4_8_12", ["/usr/bin/z3", "-T:60"]), ("cvc5", ["cvc5", "--tlimit=60000"])):
-                got = run_binary(cmd, path)
-                if got == expected:
-                    res[name]["agree"] += 1  # type: ignore[index]
-                elif got in ("sat", "unsat"):
-                    res["disagreements"].append({"solver": name, "expected": expected, "got": got, "query": i})  # type: ignore[union-attr]
+SOLVERS = (("z3_4_8_12", ["/usr/bin/z3", "-T:60"]), ("cvc5_1_0", ["cvc5", "--tlimit=60000"]))
+
+
+def _one(path: str) -> Tuple[str, str, Dict[str, str]]:
+    with open(path) as f:
+        first = f.readline()
+        body = f.read()
+    expected = first.split(":")[-1].strip()
+    if "(check-sat)" not in body:
+        body += "\n(check-sat)\n"
+    q = path[:-5] + "_q.smt2"
+    with open(q, "w") as f:
+        f.write("(set-logic ALL)\n" + body)
+    got = {name: run_binary(cmd, q) for name, cmd in SOLVERS}
+    return path, expected, got
+
+
+def begin(tag: str, work: str, every: int = 97, per_process: int = 40) -> str:
+    d = os.path.join(work, "smt_" + tag)
+    shutil.rmtree(d, ignore_errors=True)
+    os.makedirs(d, exist_ok=True)
+    os.environ["VERIF_SMT_DUMP"] = d
+    os.environ["VERIF_SMT_DUMP_EVERY"] = str(every)
+    os.environ["VERIF_SMT_DUMP_MAX"] = str(per_process)
+    return d
+
+
+def end(d: str, limit: int = 400, jobs: int = 16) -> Dict[str, Any]:
+    os.environ.pop("VERIF_SMT_DUMP", None)
+    files = sorted(f for f in glob.glob(os.path.join(d, "*.smt2")) if not f.endswith("_q.smt2"))
+    step = max(1, len(files) // limit)
+    files = files[::step][:limit]
+    res: Dict[str, Any] = {"dumped": len(glob.glob(os.path.join(d, "*.smt2"))), "queries": 0, "disagreements": [], "expected": {"sat": 0, "unsat": 0}}
+    for name, _ in SOLVERS:
+        res[name] = {"agree": 0, "unknown_timeout_error": 0}
+    with concurrent.futures.ThreadPoolExecutor(max_workers=jobs) as pool:
+        for path, expected, got in pool.map(_one, files):
+            res["queries"] += 1
+            res["expected"][expected] = res["expected"].get(expected, 0) + 1
+            for name, g in got.items():
+                if g == expected:
+                    res[name]["agree"] += 1
+                elif g in ("sat", "unsat"):
+                    with open(path) as f:
+                        text = f.read()
+                    res["disagreements"].append({"solver": name, "z3_api": expected, "got": g, "query": text[:4000]})
                 else:
-                    res[name]["other"] += 1  # type: ignore[index]
-    finally:
-        subprocess.run(["rm", "-rf", d], check=False)
+                    res[name]["unknown_timeout_error"] += 1
+    shutil.rmtree(d, ignore_errors=True)
     return res
